@@ -47,7 +47,7 @@ ASSUMPTIONS = [
     "critical nodes (root, furcations, tips) have distinct (x, y, z, r) keys",
     "spacing > 0; finite coordinates",
 ]
-REQUIRED = ["tree_resamplings", "branches_checked", "sample_points_checked", "zero_length_branches",
+REQUIRED = ["branch_results_kept_across_calls", "tree_resamplings", "branches_checked", "sample_points_checked", "zero_length_branches",
             "two_node_branches_longer_than_spacing", "exact_multiple_spacings", "root_one_child",
             "non_soma_roots", "instance_reused", "branch_isometric_checked", "integer_coordinate_branches",
             "branch_linear_checked", "branch_smoother_checked", "tree_smoother_checked", "assembler_identity_checked",
@@ -463,6 +463,27 @@ def exec_branch(ctx, case):
         if not np.isfinite(got).all():
             return ctx.violation("smoother-nonfinite", f"BranchConvSmoother({w}) produced "
                                                        f"non-finite coordinates", case)
+    # one operator object used on two branches, the first result still in use (comparing a branch
+    # with its partner): the second call leaves the first result alone
+    if op == "linear":
+        tf_ = BranchLinearResampler(case["n"])
+    elif op == "isometric":
+        tf_ = BranchIsometricResampler(d)
+    else:
+        tf_ = BranchConvSmoother(case["window"])
+    partner = Branch.from_xyzr(br.xyzr()[::-1].copy() * np.float32(1.5))
+    first = tf_(br)
+    x_first = first.xyzr().copy()
+    second = tf_(partner)
+    ctx.count("branch_results_kept_across_calls")
+    if not np.array_equal(first.xyzr(), x_first, equal_nan=True):
+        return ctx.violation("earlier-result-changed",
+                             f"{type(tf_).__name__}: the branch returned for one branch changed when "
+                             f"the same operator was applied to another branch", case)
+    if any(np.shares_memory(a_, b_) for a_ in first.attach.ndata.values()
+           for b_ in second.attach.ndata.values()):
+        return ctx.violation("results-share-storage",
+                             f"{type(tf_).__name__}: two results of one operator share storage", case)
     if contracts.fingerprint(tree) != fp:
         ctx.violation("input-mutated", f"branch operation {op} modified the tree its branch "
                                        f"belongs to", case)
